@@ -283,6 +283,19 @@ if __name__ == "__main__":
         for m in ms:
             print(json.dumps({k: m[k] for k in ("id", "file", "line", "op", "before", "after")}))
         print(f"# {len(ms)} mutants", file=sys.stderr)
+    elif a[0] == "diff":
+        # tools/mutate.py diff <mutant id>  -> a patch (git apply) for that mutant on stdout
+        ms = [m for m in gen() if m["id"] == a[1]]
+        if not ms:
+            print("no such mutant", file=sys.stderr)
+            sys.exit(1)
+        m = ms[0]
+        path = REPO + "/" + m["file"]
+        lines = open(path).read().split("\n")
+        import difflib
+        new = list(lines)
+        new[m["line"] - 1] = m["new_line"]
+        sys.stdout.write("".join(difflib.unified_diff([l + "\n" for l in lines], [l + "\n" for l in new], "a/" + m["file"], "b/" + m["file"], n=3)))
     elif a[0] == "run":
         args = {}
         i = 1
